@@ -793,6 +793,14 @@ pub fn c04(tier: Tier) -> Vec<Scenario> {
     s.oracles = o.clone();
     out.push(s);
 
+    // a server that keeps its side open after the UnbindRequest: the client must still shut the transport down
+    let mut s = Scenario::new("C04/unbind-server-keeps-open");
+    s.clients = vec![client(vec![single(OpKind::Bind, "a0"), Call::Unbind])];
+    s.server_closes_on_unbind = false;
+    s.select_starts = vec![1, 3];
+    s.oracles = o.clone();
+    out.push(s);
+
     // dropping the last handle closes the connection
     let mut s = Scenario::new("C04/drop-all-handles");
     s.clients = vec![client(vec![single(OpKind::Bind, "a0")]), client(vec![start("s", Chain::Direct), Call::Next, Call::Next, Call::Finish])];
